@@ -207,6 +207,7 @@ def need_table(els, xs, points):
     truncation points of the first element (block-aligned for Split)."""
     real = [plain(r) for r in stream(els, xs)]
     tables = []
+    ends = []
     for i, r in enumerate(els):
         base = stream(els[:i], xs)
         out_i = [plain(x) for x in build([r], []).run(iter(copy.deepcopy(base)))]
@@ -225,6 +226,33 @@ def need_table(els, xs, points):
                     N[j] = m
                     break
         tables.append(N)
+        # E: the least m after which the element's complete output is settled whatever follows
+        # (only an element that stops by itself, such as a Slice with a non-negative stop, has one
+        # that is smaller than its available input)
+        E = None
+        for m in pts:
+            if all(o == out_i for o in outs[m]):
+                E = m
+                break
+        # (only for a Slice with non-negative indices: it can never need a value at or beyond its stop;
+        # how far other forms read to find out that nothing follows is not promised)
+        stop = None
+        if r[0] == "slice" and all(a is None or a >= 0 for a in r[1:3]):
+            stop = r[1] if len(r) == 2 else r[2]
+        # (the bound is the stop index itself: list slicing semantics never need the value at index stop)
+        ends.append(stop if stop is not None and E is not None and stop < len(base) else None)
+    # what the source has to give until the first self-stopping element has settled its output
+    end_need = None
+    for i, E in enumerate(ends):
+        if E is not None:
+            j = E
+            for N in reversed(tables[:i]):
+                j = N.get(j)
+                if j is None:
+                    break
+            end_need = j
+            break
+    need_table.end_need = end_need
     need = {}
     for k in range(1, len(real) + 1):
         j = k
@@ -284,7 +312,7 @@ def pipeline_case(draw):
     if kind == "split_first":
         els = [draw(split_el)] + els[:3]
     n = draw(st.sampled_from(list(range(8, 21)) * 2 + list(range(4, 8)) * 2 + [3, 2, 1, 0]))
-    return {"els": els, "n": n, "driver": draw(st.sampled_from(["sequence", "source", "source_iter"])),
+    return {"els": els, "n": n, "driver": draw(st.sampled_from(["sequence", "source", "source_iter", "sequence", "sequence_list"])),
             "stop_after": draw(st.sampled_from([99, 99, 3, 1, 1, 2, 2, 0, 4, 5, 7, 9, 12]))}
 
 
@@ -294,6 +322,11 @@ def _run(case, src, log):
         s = Source(lambda: src, *[build_el(r, log) for r in els])
         check_idle(log, src, "construction", case)
         return s()
+    if case.get("driver") == "sequence_list":
+        # the flow is a list (as RunIf, FillInto and Split hand it over)
+        s = build(els, log)
+        check_idle(log, src, "construction", case)
+        return s.run(list(src.values))
     if case.get("driver") == "source_iter":
         # a lazy iterable (not callable) as the head of the Source
         if not els:
@@ -444,9 +477,17 @@ def judge_infinite(case):
         else:
             points = list(range(N + 1))
         real, need = need_table(els, xs, points)
+        end_need = need_table.end_need
         if got != real[:len(got)] or len(got) != len(real):
             # the finite prefix must give the same results: the pipeline ends in a non-negative stop
             raise Violation("infinite-run-differs-from-finite-prefix", "%s: %s vs %s" % (short(els), short(got), short(real)))
+        # when the consumer has exhausted the pipeline, no more was pulled than settles the output of
+        # the element that ends it (a Slice(0, 5, 4) is finished after 5 values, not after 8)
+        if end_need is not None and total_pulls > end_need:
+            kinds = sorted(set(e[0] for e in els))
+            raise Violation("pulled-beyond-the-end-of-a-finished-pipeline:" + "+".join(kinds),
+                            "infinite source, %s: %d values were pulled until the pipeline was exhausted, the Slice that ends it needs no more than %d" % (
+                                short(els, 500), total_pulls, end_need))
         # step by step
         log2 = []
         src2 = Src(None, log2, infinite=True)
